@@ -7,7 +7,8 @@ Open Scope Z_scope.
 Inductive case :=
 | COrder (o1 : order) (r1 : Z) (o2 : order) (r2 : Z) (impl : bool)
 | CMatch (L : link) (m : mol) (impl : list placement)                  (* match_link: the set of placements *)
-| CApply (Ls : list link) (m : mol)
+| CApply (fast : bool)                                                   (* pruned enumeration of placements (shipped force fields) *)
+         (Ls : list link) (m : mol)
          (impl_inters : list (Z * list inter))                         (* after DoLinks.run_molecule *)
          (impl_nodes : list mnode).
 
@@ -45,8 +46,8 @@ Definition corr (k : case) : bool :=
   match k with
   | COrder o1 r1 o2 r2 impl => Bool.eqb (match_order o1 r1 o2 r2) impl
   | CMatch L m impl => pl_same (matches L m) impl
-  | CApply Ls m ii inodes =>
-      let r := do_links Ls m in
+  | CApply fast Ls m ii inodes =>
+      let r := if fast then do_links_fast Ls m else do_links Ls m in
       forallb (fun t => multiset_eqb (iget (inters r) t) (iget ii t)) (types_of (inters r) ii)
       && Nat.eqb (List.length (nodes r)) (List.length inodes)
       && forallb (fun n => existsb (node_eqb n) inodes) (nodes r)
@@ -74,12 +75,12 @@ Definition table (o1 : order) (r1 : Z) (o2 : order) (r2 : Z) : bool :=
 Definition stable (L : link) : bool :=
   forallb (fun n => match l_replace n with None => true | Some _ => false end) (lnodes L).
 
-Definition all_adds (Ls : list link) (m : mol) : list (Z * inter) :=
-  flat_map (fun L => flat_map (fun p => map (fun ti => (fst ti, inst p (snd ti))) (linters L)) (matches L m)) Ls.
+Definition all_adds (fast : bool) (Ls : list link) (m : mol) : list (Z * inter) :=
+  flat_map (fun L => flat_map (fun p => map (fun ti => (fst ti, inst p (snd ti))) (linters L)) (if fast then matches_fast L m else matches L m)) Ls.
 
 (* every removal template instantiated on every fitting placement: type, atoms, template *)
-Definition all_removals (Ls : list link) (m : mol) : list (Z * (list Z * rinter)) :=
-  flat_map (fun L => flat_map (fun p => map (fun tr => (fst tr, (map_atoms p (r_atoms (snd tr)), snd tr))) (lremoved L)) (matches L m)) Ls.
+Definition all_removals (fast : bool) (Ls : list link) (m : mol) : list (Z * (list Z * rinter)) :=
+  flat_map (fun L => flat_map (fun p => map (fun tr => (fst tr, (map_atoms p (r_atoms (snd tr)), snd tr))) (lremoved L)) (if fast then matches_fast L m else matches L m)) Ls.
 
 Definition designated (m : mol) (rems : list (Z * (list Z * rinter))) (t : Z) (j : inter) : bool :=
   existsb (fun tr => Z.eqb (fst tr) t && removal_matches m j (fst (snd tr)) (snd (snd tr))) rems.
@@ -96,10 +97,10 @@ Definition prop (k : case) : bool :=
       forallb (fun p => pl_mem p (placements L m) && fits L m p) impl
       && forallb (fun p => pl_mem p impl) (matches L m)
       && Nat.eqb (List.length impl) (List.length (matches L m))
-  | CApply Ls m ii _ =>
+  | CApply fast Ls m ii _ =>
       if forallb stable Ls then
-        let adds := all_adds Ls m in
-        let rems := all_removals Ls m in
+        let adds := all_adds fast Ls m in
+        let rems := all_removals fast Ls m in
         (* justified *)
         forallb (fun tl => forallb (fun j =>
             existsb (inter_eqb j) (iget (inters m) (fst tl))
